@@ -1,5 +1,5 @@
 (** C10 — pinned statements (inbound flows, notifications).  Only [Theorem .. exact ..]. *)
-From Rumqtt Require Import Client.Run4 Client.Inv4 Client.Wire4 Client.Events4.
+From Rumqtt Require Import Client.Run4 Client.Inv4 Client.Wire4 Client.Events4 Client.State5 Client.Inv5.
 
 Theorem c10_incoming : forall s pk, Inv s -> incoming_reply_spec s pk (handle_incoming_packet s pk).
 Proof. exact incoming_flow. Qed.
@@ -11,3 +11,9 @@ Proof. exact handle_incoming_packet_inv. Qed.
 Theorem c10_events_match_writes : forall s o s' rep, Inv s -> op_ok s o = true -> outcome s o = Some (s', rep) ->
   exists evs, events s' = events s ++ evs /\ writes_match o rep evs.
 Proof. exact step_events. Qed.
+
+(* v5: no incoming packet panics or breaks the bookkeeping (the reply/notification statements
+   c10_incoming / c10_events_match_writes are not ported to v5: correspondence + monitors only) *)
+Theorem c10_incoming_total_v5_partial : forall s pk, Client.Inv5.Inv5 s -> Client.Inv5.op_ok5 s (Client.State5.Inc5 pk) = true ->
+  match Client.State5.handle_incoming_packet5 s pk with Ok (s', _) => Client.Inv5.Inv5 s' | Err (s', _) => Client.Inv5.Inv5 s' | Panic _ => False end.
+Proof. exact Client.Inv5.handle_incoming_packet5_inv. Qed.
